@@ -201,6 +201,12 @@ def run(rep: Report, tier: str) -> None:
                 rep.add(Finding("R18.4", "R18.4/existential-decision", dd.module.rel, dd.node.lineno, dd.qualname,
                                 f"the TIMESTAMP decision for a DataFrame Date column is not `some value has a time part` (reductions used: {sorted(reductions)}): "
                                 f"a column mixing plain dates and date-times is stored as DATE and the times are silently dropped, while the CSV loader (always TIMESTAMP) keeps them"))
+            elif "any" not in reductions and any((isinstance(c_, ast.Attribute) and c_.attr in ("first_valid_index", "iloc", "iat", "head", "sample")) or
+                                                 (isinstance(c_, ast.Subscript) and isinstance(c_.slice, ast.Constant) and isinstance(c_.slice.value, int)) for c_ in ast.walk(dd.node)):
+                rep.add(Finding("R18.4", "R18.4/existential-decision", dd.module.rel, dd.node.lineno, dd.qualname,
+                                "the TIMESTAMP decision for a DataFrame Date column looks at a value picked by position (first valid value / iloc / head) instead of asking whether SOME value has a "
+                                "time part: a column whose first value is a plain date is stored as DATE and the times of the later values are dropped, while the CSV loader keeps them"))
+                break
             elif "any" not in reductions:
                 raise AnalysisError(f"R18.4: _detect_date_type_overrides is neither evaluable ({e}) nor an any()/all() reduction")
             break
@@ -295,7 +301,7 @@ def fetch_time_format(P: Program, rep: Report, rule: str) -> None:
     import datetime as _dt
     from sa import sqlconc as _sc, sqlexpr as _se
     # the model table: D_frac holds a time of day only in the sub-second fraction of one value, D_hm an ordinary time, D_date midnights only
-    rows = {"D_frac": [_dt.datetime(2020, 1, 5, 0, 0, 0, 250000), _dt.datetime(2020, 1, 6), None], "D_hm": [_dt.datetime(2020, 1, 5, 13, 30), _dt.datetime(2020, 1, 6), None],
+    rows = {"D_frac": [_dt.datetime(2020, 1, 5, 0, 0, 0, 250000), _dt.datetime(2020, 1, 6), None], "D_hm": [_dt.datetime(2020, 1, 5), _dt.datetime(2020, 1, 6, 13, 30), None],
             "D_date": [_dt.datetime(2020, 1, 5), _dt.datetime(2020, 1, 6), None]}
     has_time = {c_: any(v is not None and (v.hour, v.minute, v.second, v.microsecond) != (0, 0, 0, 0) for v in vs) for c_, vs in rows.items()}
 
@@ -330,6 +336,31 @@ def fetch_time_format(P: Program, rep: Report, rule: str) -> None:
                     cur += ch
             items.append(cur)
             ans = []
+            # a row-wise probe: `SELECT <flag>, ... FROM <table> [WHERE <pred>] [LIMIT n]` - evaluated over the model rows in their physical order
+            last = items[-1]
+            mrow = re.match(r'(.*?)\s+FROM\s+"[^"]+"\s*(?:WHERE\s+(.*?))?\s*(?:LIMIT\s+(\d+))?\s*$', last, re.I | re.S)
+            if mrow and not any(re.match(r"\s*EXISTS\b", it_, re.I) for it_ in items):
+                flag_items = items[:-1] + [mrow.group(1)]
+                try:
+                    exprs = [_se.parse(re.sub(r'\s+AS\s+"[^"]+"\s*$', "", fi, flags=re.I)) for fi in flag_items]
+                    wpred = _se.parse(mrow.group(2)) if mrow.group(2) else None
+                except _se.ParseError as ex:
+                    raise AnalysisError(f"{rule}: row-wise probe outside the SQL evaluator's language: {ex} [{q[:100]}]")
+                out_rows = []
+                for i_ in range(3):
+                    env_ = {k_: rows[c_][i_] for c_ in rows for k_ in (c_, f'"{c_}"')}
+
+                    def _evq(e_: Any) -> Any:
+                        try:
+                            return _sc.ev(e_, env_, {})
+                        except (_sc.SqlError, AttributeError, TypeError):
+                            return None  # NULL propagation on a NULL timestamp
+                    if wpred is not None and _evq(wpred) is not True:
+                        continue
+                    out_rows.append(tuple(_evq(e_) for e_ in exprs))
+                lim = int(mrow.group(3)) if mrow.group(3) else None
+                out_rows = out_rows[:lim] if lim is not None else out_rows
+                return _Rel(row=out_rows[0] if out_rows else None)
             for it_ in items:
                 m_ = re.match(r'\s*EXISTS\s*\(\s*SELECT\s+.+?\s+FROM\s+"[^"]+"\s+WHERE\s+(.*)\)\s*(?:AS\s+"[^"]+")?\s*$', it_, re.I | re.S)
                 if not m_:
